@@ -15,6 +15,7 @@ import (
 	tmproto "github.com/cometbft/cometbft/proto/tendermint/types"
 	sdk "github.com/cosmos/cosmos-sdk/types"
 	"github.com/ethereum/go-ethereum/accounts/abi"
+	"github.com/ethereum/go-ethereum/common"
 	evmtypes "github.com/evmos/evmos/v16/x/evm/types"
 )
 
@@ -160,6 +161,7 @@ type Run struct {
 	ledgerCache  *Ledger
 	LastBegin    abci.ResponseBeginBlock
 	LastEvidence []Evidence
+	Contracts    []common.Address // successfully deployed contracts, in order
 	tainted      bool
 	NoKnown      bool // replay/minimise mode: known findings are reported like any violation
 	PendingDogfoodUndelegations []string
@@ -506,6 +508,7 @@ func (r *Run) ExecBlock(bi int, b Block) {
 		}
 	}
 	// transactions
+	blockGasWanted := int64(0)
 	for oi, op := range b.Ops {
 		r.curOp = oi
 		r.phase = "DeliverTx"
@@ -541,6 +544,19 @@ func (r *Run) ExecBlock(bi int, b Block) {
 				r.Fault("checktx_interleaved")
 			}
 		}
+		// an honest proposer never proposes more gas than the block limit (CometBFT reaps the
+		// mempool by the gas wanted reported by CheckTx); the stub does the same
+		if r.Cfg.BlockMaxGas > 0 {
+			gw := int64(bt.GasLimit)
+			if bt.Kind == "cosmos" {
+				gw = 2_000_000
+			}
+			if blockGasWanted+gw > r.Cfg.BlockMaxGas {
+				r.Stats.OpOutcomes[op.K+":not-proposed(block gas)"]++
+				continue
+			}
+			blockGasWanted += gw
+		}
 		r.History = append(r.History, bt)
 		r.phase = "BeforeTx"
 		for _, m := range r.Mons {
@@ -556,6 +572,9 @@ func (r *Run) ExecBlock(bi int, b Block) {
 		rec.TxResults = append(rec.TxResults, resp)
 		tr := r.decodeResult(bt, resp)
 		tr.Height, tr.Block, tr.Index = h, bi, oi
+		if tr.OK && bt.Creates != nil {
+			r.Contracts = append(r.Contracts, *bt.Creates)
+		}
 		r.Results = append(r.Results, tr)
 		r.Stats.Txs++
 		if tr.OK {
